@@ -873,3 +873,56 @@ def voxel_twin(tree, scale: float = 0.25):
         kw[k] = (kw[k] / np.float32(scale)).astype(np.float32)
     return VoxelTree(tree.number_of_nodes(), names=nm, source=tree.source,
                      comments=list(tree.comments), **kw)
+
+
+# ------------------------------------------------------------------ hostile callers (round 13)
+HOSTILE_STATS = {"returned_values_overwritten_by_the_caller": 0}
+
+
+def scribble(v):
+    """Overwrite, in place, a value the library handed out (arrays get other numbers, lists are
+    reversed and shortened): what a caller does who normalises / sorts / trims its result."""
+    if isinstance(v, np.ndarray):
+        if v.flags.writeable and v.size:
+            if v.dtype.kind in "fc":
+                v *= -3.0
+                v += 11.0
+            elif v.dtype.kind in "iu":
+                v += 5
+            if v.ndim == 1 and v.size > 1:
+                v[:] = v[::-1].copy()
+            HOSTILE_STATS["returned_values_overwritten_by_the_caller"] += 1
+    elif isinstance(v, list):
+        for x in v:
+            scribble(x)
+        v.reverse()
+        if v:
+            v.pop()
+        HOSTILE_STATS["returned_values_overwritten_by_the_caller"] += 1
+    elif isinstance(v, dict):
+        for x in v.values():
+            scribble(x)
+
+
+class HostileCaller:
+    """Wraps a library object: every method result is handed to the check as a private deep copy,
+    and the object the library itself returned is then overwritten in place.  On a library that
+    returns fresh values (or copies of what it keeps) nothing changes for later calls."""
+
+    def __init__(self, obj):
+        self._obj = obj
+
+    def __getattr__(self, name):
+        import copy
+
+        attr = getattr(self._obj, name)
+        if not callable(attr):
+            return attr
+
+        def call(*a, **k):
+            v = attr(*a, **k)
+            mine = copy.deepcopy(v)
+            scribble(v)
+            return mine
+
+        return call
